@@ -802,7 +802,8 @@ func runC01(c *Ctx) {
 	}
 
 	// ---------------------------------------------------------------- R11
-	c.rule("R11", "state an exchange builds per call is private to the call: the DoH request URL written by an exchange is a fresh allocation made in that call", 1)
+	c.rule("R11", "state an exchange builds per call is private to the call: the DoH request URL written by an exchange is a fresh allocation made in that call; the DoH body is read whole", 2)
+	checkDohBodyReadWhole(c)
 	if ex := c.fn(relDoh, "Upstream", "exchange"); ex != nil {
 		c.see(ex)
 		n := 0
